@@ -263,16 +263,29 @@ var compare = ev.Register(&ev.P[pairCase]{
 
 var hourStep = ev.Register(&ev.P[stepCase]{
 	Name: "hour_step",
-	Rule: "generated date-time, hour count n of both signs; oracle: NextHour(n) == the instant + 3600 n seconds by R-civil; non-trivial: crosses a day boundary backwards, or 1582-10",
+	Rule: "generated date-time, hour count n of both signs; oracle: NextHour(n) == the instant + 3600 n seconds by R-civil; the receiver is unchanged by stepping (asked again with 0, ±1 and small steps, then read back); non-trivial: crosses a day boundary backwards, or 1582-10",
 	Check: func(c stepCase) error {
 		t := c.T
 		want := ref.FromSec(t.Sec() + int64(c.N)*3600)
 		if want.Y < 1 || want.Y > 9998 {
 			return nil
 		}
-		got := gen.Solar(t).NextHour(c.N)
+		src := gen.Solar(t)
+		got := src.NextHour(c.N)
 		if !eq(got, want) {
 			return fmt.Errorf("%v NextHour(%d) = %s, R-civil says %v", t, c.N, got.ToYmdHms(), want)
+		}
+		// stepping returns a new moment and leaves its receiver alone: the same object steps again (small steps stay
+		// within the day) and still is the moment it was built as
+		for _, k := range []int{0, 1, -1, c.N % 5} {
+			if w2 := ref.FromSec(t.Sec() + int64(k)*3600); w2.Y >= 1 && w2.Y <= 9998 {
+				if g2 := src.NextHour(k); !eq(g2, w2) {
+					return fmt.Errorf("%v NextHour(%d) on an object that was stepped before = %s, R-civil says %v", t, k, g2.ToYmdHms(), w2)
+				}
+			}
+		}
+		if d0 := src.NextDay(0); !eq(src, t) || !eq(d0, t) {
+			return fmt.Errorf("%v: after NextHour/NextDay calls the receiver reads %s (NextDay(0) = %s)", t, src.ToYmdHms(), d0.ToYmdHms())
 		}
 		return nil
 	},
